@@ -45,6 +45,15 @@ Lemma Forall2_weaken {A B} (P Q : A -> B -> Prop) l1 l2 :
   (forall a b, P a b -> Q a b) -> Forall2 P l1 l2 -> Forall2 Q l1 l2.
 Proof. intros HI H. induction H; constructor; auto. Qed.
 
+Lemma Forall2_in_l {A B} (P : A -> B -> Prop) l1 l2 a :
+  Forall2 P l1 l2 -> In a l1 -> exists b, In b l2 /\ P a b.
+Proof.
+  intros H. induction H as [|x y l1 l2 Hxy _ IH]; intros Hin; [destruct Hin|].
+  destruct Hin as [<-|Hin]; [exists y; split; [left; reflexivity|exact Hxy]|].
+  destruct (IH Hin) as [b [Hb Pb]]. exists b. split; [right; exact Hb|exact Pb].
+Qed.
+
+
 (* ---------- real arithmetic of the intersection coordinates ---------- *)
 
 Lemma ratio_unit x a b : Rmin a b <= x <= Rmax a b -> a <> b -> 0 <= (x - a) / (b - a) <= 1.
@@ -303,4 +312,356 @@ Section Seg.
   (* path order: along the chain both coordinates are monotone (never go back) *)
   Theorem chain_monotone : mono (map fst chain) /\ mono (map snd chain).
   Proof. rewrite chain_lat, chain_lon. split; [apply lat_chain_mono|apply lon_chain_mono]. Qed.
+  (* ---------- the chain points are points of the segment's straight map line ---------- *)
+  Definition on_line (p : R * R) : Prop := (snd p - lon0) * dlat = (fst p - lat0) * dlon.
+
+  Lemma nsign_eqb_down (d : R) : (@nsign RNum d =? -1)%Z = Rltb d 0.
+  Proof.
+    unfold nsign. cbn [ltb RNum zero]. destruct (Rltb d 0); [reflexivity|].
+    destruct (Rltb 0 d); reflexivity.
+  Qed.
+
+  Lemma ilats_sortd : ilats = sortd (Rltb dlat 0) (latlines ++ lats_for_lon).
+  Proof. unfold ilats. rewrite sort_dir_sortd, nsign_eqb_down. reflexivity. Qed.
+
+  Lemma ilons_sortd : ilons = sortd (Rltb dlon 0) (lonlines ++ lons_for_lat).
+  Proof. unfold ilons. rewrite sort_dir_sortd, nsign_eqb_down. reflexivity. Qed.
+
+  Lemma latlines_nil_if_flat : dlat = 0 -> latlines = [].
+  Proof.
+    intros E. destruct latlines as [|y r] eqn:El; [reflexivity|]. exfalso.
+    assert (H : In y latlines) by (rewrite El; left; reflexivity).
+    apply latlines_between in H. unfold dlat in E.
+    rewrite Rmin_left, Rmax_right in H by lra. lra.
+  Qed.
+
+  Lemma lonlines_nil_if_flat : dlon = 0 -> lonlines = [].
+  Proof.
+    intros E. destruct lonlines as [|y r] eqn:El; [reflexivity|]. exfalso.
+    assert (H : In y lonlines) by (rewrite El; left; reflexivity).
+    apply lonlines_between in H. unfold dlon in E.
+    rewrite Rmin_left, Rmax_right in H by lra. lra.
+  Qed.
+
+  Lemma ilats_flat la : dlat = 0 -> In la ilats -> la = lat0.
+  Proof.
+    intros E H. unfold ilats in H. eapply Permutation_in in H; [|apply sort_dir_perm].
+    rewrite (latlines_nil_if_flat E) in H. cbn [app] in H. unfold lats_for_lon in H.
+    apply in_map_iff in H. destruct H as [x [<- _]].
+    rewrite (proj2 (Reqb_true dlat 0) E). reflexivity.
+  Qed.
+
+  Lemma ilons_flat lo : dlon = 0 -> In lo ilons -> lo = lon0.
+  Proof.
+    intros E H. unfold ilons in H. eapply Permutation_in in H; [|apply sort_dir_perm].
+    rewrite (lonlines_nil_if_flat E) in H. cbn [app] in H. unfold lons_for_lat in H.
+    apply in_map_iff in H. destruct H as [y [<- _]].
+    unfold icpt, slope. rewrite E. unfold Rdiv. rewrite !Rmult_0_l. lra.
+  Qed.
+
+  Lemma slope_sign :
+    dlat <> 0 -> dlon <> 0 ->
+    (0 < slope /\ Rltb dlon 0 = Rltb dlat 0) \/ (slope < 0 /\ Rltb dlon 0 = negb (Rltb dlat 0)).
+  Proof.
+    intros Ha Ho. unfold slope.
+    destruct (Rlt_dec dlat 0) as [La|La]; destruct (Rlt_dec dlon 0) as [Lo|Lo].
+    - left. split.
+      + replace (dlon / dlat) with ((- dlon) / (- dlat)) by (field; lra). apply Rdiv_lt_0_compat; lra.
+      + rewrite (proj2 (Rltb_true dlon 0) Lo), (proj2 (Rltb_true dlat 0) La). reflexivity.
+    - right. split.
+      + replace (dlon / dlat) with (- (dlon / (- dlat))) by (field; lra).
+        assert (0 < dlon / (- dlat)) by (apply Rdiv_lt_0_compat; lra). lra.
+      + rewrite (proj2 (Rltb_true dlat 0) La). rewrite (proj2 (Rltb_false dlon 0)) by lra. reflexivity.
+    - right. split.
+      + replace (dlon / dlat) with (- ((- dlon) / dlat)) by (field; lra).
+        assert (0 < (- dlon) / dlat) by (apply Rdiv_lt_0_compat; lra). lra.
+      + rewrite (proj2 (Rltb_true dlon 0) Lo). rewrite (proj2 (Rltb_false dlat 0)) by lra. reflexivity.
+    - left. split.
+      + apply Rdiv_lt_0_compat; lra.
+      + rewrite (proj2 (Rltb_false dlon 0)) by lra. rewrite (proj2 (Rltb_false dlat 0)) by lra. reflexivity.
+  Qed.
+
+  (* general position: the sorted longitudes are the line's image of the sorted latitudes *)
+  Lemma ilons_image :
+    dlat <> 0 -> dlon <> 0 -> ilons = map (fun y => slope * y + icpt) ilats.
+  Proof.
+    intros Ha Ho. set (f := fun y => slope * y + icpt).
+    destruct (slope_sign Ha Ho) as [[Hs Hd]|[Hs Hd]].
+    - assert (Hn : slope <> 0) by lra.
+      assert (Em : Permutation (lonlines ++ lons_for_lat) (map f (latlines ++ lats_for_lon))).
+      { rewrite map_app. rewrite Permutation_app_comm. apply Permutation_app; [reflexivity|].
+        unfold lats_for_lon. rewrite map_map.
+        rewrite (map_ext _ (fun x => x)); [rewrite map_id; reflexivity|].
+        intros x. rewrite (proj2 (Reqb_false dlat 0) Ha). unfold f. field. exact Hn. }
+      rewrite ilons_sortd, ilats_sortd, Hd.
+      rewrite (sortd_perm_eq _ _ _ Em). apply sortd_map_incr.
+      intros u v. unfold f. split; intros H; nra.
+    - assert (Hn : slope <> 0) by lra.
+      assert (Em : Permutation (lonlines ++ lons_for_lat) (map f (latlines ++ lats_for_lon))).
+      { rewrite map_app. rewrite Permutation_app_comm. apply Permutation_app; [reflexivity|].
+        unfold lats_for_lon. rewrite map_map.
+        rewrite (map_ext _ (fun x => x)); [rewrite map_id; reflexivity|].
+        intros x. rewrite (proj2 (Reqb_false dlat 0) Ha). unfold f. field. exact Hn. }
+      rewrite ilons_sortd, ilats_sortd, Hd.
+      rewrite (sortd_perm_eq _ _ _ Em). apply sortd_map_decr.
+      intros u v. unfold f. split; intros H; nra.
+  Qed.
+
+  Lemma in_combine_map (f : R -> R) (l : list R) a b : In (a, b) (combine l (map f l)) -> b = f a.
+  Proof.
+    induction l as [|x l IH]; [intros []|]. cbn [map combine]. intros [E|H]; [injection E as <- <-; reflexivity|auto].
+  Qed.
+
+  Theorem chain_points_on_line : Forall on_line chain.
+  Proof.
+    unfold chain. constructor; [unfold on_line; cbn [fst snd]; lra|].
+    rewrite Forall_app. split; [|constructor; [unfold on_line, dlat, dlon; cbn [fst snd]; lra|constructor]].
+    apply Forall_forall. intros [la lo] Hp. unfold on_line. cbn [fst snd].
+    destruct (Req_dec dlat 0) as [Ea|Ea].
+    - assert (la = lat0) by (apply (ilats_flat la Ea); eapply in_combine_l; exact Hp). subst la. rewrite Ea. lra.
+    - destruct (Req_dec dlon 0) as [Eo|Eo].
+      + assert (lo = lon0) by (apply (ilons_flat lo Eo); eapply in_combine_r; exact Hp). subst lo. rewrite Eo. lra.
+      + unfold ipts in Hp. rewrite (ilons_image Ea Eo) in Hp. apply in_combine_map in Hp. subst lo.
+        unfold icpt, slope. field. exact Ea.
+  Qed.
+  Lemma in_pairs_members {A} (l : list A) (ab : A * A) : In ab (pairs l) -> In (fst ab) l /\ In (snd ab) l.
+  Proof.
+    destruct ab as [u w]. intros H. destruct (in_pairs_split l u w H) as [P [Q ->]]. cbn [fst snd]. split.
+    - apply in_or_app. right. left. reflexivity.
+    - apply in_or_app. right. right. left. reflexivity.
+  Qed.
+
+  (* every reported cell contains (in its closed rectangle) a point of the segment itself: a point of the
+     straight map line lying between the segment's end points *)
+  Theorem reported_cell_touches_segment c :
+    In c cells ->
+    exists p, on_line p /\
+              Rmin lat0 lat1 <= fst p <= Rmax lat0 lat1 /\ Rmin lon0 lon1 <= snd p <= Rmax lon0 lon1 /\
+              in_cell glat (fst c) (fst p) /\ in_cell glon (snd c) (snd p).
+  Proof.
+    intros Hc. destruct (Forall2_in_l _ _ _ _ pieces_in_cells Hc) as [ab [Hab [A1 [_ [B1 _]]]]].
+    destruct (in_pairs_members chain ab Hab) as [Hp _]. exists (fst ab).
+    pose proof chain_points_on_line as HL. rewrite Forall_forall in HL.
+    split; [apply HL; exact Hp|]. split; [|split; [|split; assumption]].
+    - apply (mono_between ilats lat0 lat1 (fst (fst ab)) lat_chain_mono). rewrite <- chain_lat.
+      apply in_map. exact Hp.
+    - apply (mono_between ilons lon0 lon1 (snd (fst ab)) lon_chain_mono). rewrite <- chain_lon.
+      apply in_map. exact Hp.
+  Qed.
 End Seg.
+
+(* ---------- structural facts of a trajectory part ---------- *)
+
+Lemma seg_lengths clamp glat glon (p0 p1 : R * R) :
+  length (snd (@seg_geometry RNum clamp glat glon p0 p1))
+  = S (length (fst (@seg_geometry RNum clamp glat glon p0 p1))).
+Proof.
+  destruct p0 as [la lo], p1 as [lb lob]. rewrite seg_geometry_unfold. cbn [fst snd].
+  apply chain_first_last.
+Qed.
+
+Lemma concat_length {A} (l : list (list A)) : length (concat l) = list_sum (map (@length A) l).
+Proof. induction l as [|a l IH]; [reflexivity|]. simpl. rewrite app_length, IH. reflexivity. Qed.
+
+Lemma repeat_by_length {A} (xs : list A) (cs : list nat) :
+  length xs = length cs -> length (repeat_by xs cs) = list_sum cs.
+Proof.
+  revert cs. induction xs as [|x xs IH]; intros [|c cs] H; try discriminate; [reflexivity|].
+  simpl. rewrite app_length, repeat_length, IH; [reflexivity|simpl in H; lia].
+Qed.
+
+Lemma repeat_by_blocks {A} (xs : list A) (cs : list nat) :
+  repeat_by xs cs = concat (map2 (fun x c => repeat x c) xs cs).
+Proof.
+  revert cs. induction xs as [|x xs IH]; intros [|c cs]; try reflexivity.
+  simpl. rewrite IH. reflexivity.
+Qed.
+
+Lemma removelast_map {A B} (f : A -> B) (l : list A) : removelast (map f l) = map f (removelast l).
+Proof.
+  induction l as [|a l IH]; [reflexivity|]. destruct l as [|b l]; [reflexivity|].
+  change (map f (a :: b :: l)) with (f a :: map f (b :: l)).
+  change (removelast (f a :: map f (b :: l))) with (f a :: removelast (map f (b :: l))).
+  rewrite IH. reflexivity.
+Qed.
+
+Lemma map2_map_l {A A' B C} (f : A' -> B -> C) (h : A -> A') xs ys :
+  map2 f (map h xs) ys = map2 (fun x y => f (h x) y) xs ys.
+Proof. revert ys. induction xs as [|x xs IH]; intros [|y ys]; try reflexivity. simpl. rewrite IH. reflexivity. Qed.
+
+Lemma removelast_length {A} (l : list A) : length (removelast l) = pred (length l).
+Proof.
+  induction l as [|a l IH]; [reflexivity|]. destruct l as [|b l]; [reflexivity|].
+  change (removelast (a :: b :: l)) with (a :: removelast (b :: l)). simpl length in *. rewrite IH. reflexivity.
+Qed.
+
+Lemma values_length_segs (dist : R * R -> R * R -> R) fix3 clamp (glat glon : list R)
+      (segs : list ((R * R) * (R * R))) (var : list R) :
+  length var = length segs ->
+  length (@part_values RNum fix3 var
+            (@attach_dists RNum dist (map (fun s => @seg_geometry RNum clamp glat glon (fst s) (snd s)) segs)))
+  = list_sum (map (fun g : list (Z * Z) * list (R * R) => length (fst g))
+                  (map (fun s => @seg_geometry RNum clamp glat glon (fst s) (snd s)) segs)).
+Proof.
+  revert var. induction segs as [|s segs IH]; intros [|v var] Hl; try discriminate; [reflexivity|].
+  cbn [map]. unfold attach_dists. cbn [map]. fold (@attach_dists RNum dist).
+  unfold part_values. cbn [map2 concat fst snd]. rewrite app_length.
+  unfold seg_values at 1. rewrite !map_length, pairs_length, seg_lengths. cbn [pred list_sum fold_right].
+  f_equal. assert (Hl' : length var = length segs) by (simpl in Hl; lia). exact (IH var Hl').
+Qed.
+
+Section Part.
+  Variables (clamp : bool) (glat glon : list R) (pts : list (R * R)).
+  Let geom := @part_geometry RNum clamp glat glon pts.
+  Let cs := counts geom.
+
+  Lemma counts_length : length cs = pred (length pts).
+  Proof. unfold cs, counts, geom, part_geometry. rewrite !map_length. apply pairs_length. Qed.
+
+  Lemma cells_total : length (all_cells geom) = list_sum cs.
+  Proof. unfold all_cells, cs, counts. rewrite concat_length, map_map. reflexivity. Qed.
+
+  (* altitude / time index: one block per segment, every piece carries the index of the START point *)
+  Lemma axis_from_start (g vals : list R) :
+    @axis_indices RNum clamp g vals cs
+    = concat (map2 (fun v c => repeat (@cell_index RNum clamp g v) c) (removelast vals) cs).
+  Proof. unfold axis_indices. rewrite removelast_map, repeat_by_blocks, map2_map_l. reflexivity. Qed.
+
+  Lemma state_from_start (var : list R) :
+    @state_values RNum var cs = concat (map2 (fun v c => repeat v c) (removelast var) cs).
+  Proof. unfold state_values. apply repeat_by_blocks. Qed.
+
+  Lemma axis_length (g vals : list R) :
+    length vals = length pts -> length (@axis_indices RNum clamp g vals cs) = list_sum cs.
+  Proof.
+    intros H. unfold axis_indices. apply repeat_by_length.
+    rewrite removelast_length, map_length, counts_length. f_equal. exact H.
+  Qed.
+
+  Lemma state_length (var : list R) :
+    length var = length pts -> length (@state_values RNum var cs) = list_sum cs.
+  Proof.
+    intros H. unfold state_values. apply repeat_by_length.
+    rewrite removelast_length, counts_length. f_equal. exact H.
+  Qed.
+
+  (* integrated values: as many as cells, whatever the lengths are measured with *)
+  Lemma values_length (dist : R * R -> R * R -> R) fix3 (var : list R) :
+    length var = pred (length pts) ->
+    length (@part_values RNum fix3 var (@attach_dists RNum dist geom)) = list_sum cs.
+  Proof.
+    intros H. unfold cs, counts, geom, part_geometry. apply values_length_segs.
+    rewrite pairs_length. exact H.
+  Qed.
+
+  (* all arrays of a part are equally long *)
+  Theorem part_lengths_match (galt gtime alts times : list R) (states : list (list R)) :
+    length alts = length pts -> length times = length pts ->
+    Forall (fun v => length v = length pts) states ->
+    let '(la, lo, al, ti, st, _) :=
+      @part_run RNum clamp glat glon galt gtime pts (Some alts) (Some times) states in
+    length lo = length la /\
+    (forall a, al = Some a -> length a = length la) /\
+    (forall t, ti = Some t -> length t = length la) /\
+    Forall (fun s => length s = length la) st.
+  Proof.
+    intros Ha Ht Hs. unfold part_run. fold geom. fold cs. cbn [option_map].
+    rewrite !map_length. repeat split.
+    - intros a E. injection E as <-. rewrite cells_total. apply axis_length. exact Ha.
+    - intros t E. injection E as <-. rewrite cells_total. apply axis_length. exact Ht.
+    - apply Forall_forall. intros s Hin. apply in_map_iff in Hin. destruct Hin as [v [<- Hv]].
+      rewrite Forall_forall in Hs. rewrite cells_total. apply state_length. apply Hs. exact Hv.
+  Qed.
+End Part.
+
+(* every reported cell holds a piece of the chain (so a cell the path does not touch is never listed) *)
+Theorem reported_cell_holds_a_piece clamp glat glon lat0 lon0 lat1 lon1 c :
+  incr glat -> incr glon -> inside glat lat0 -> inside glat lat1 -> inside glon lon0 -> inside glon lon1 ->
+  In c (cells clamp glat glon lat0 lon0 lat1 lon1) ->
+  exists ab, In ab (pairs (chain clamp glat glon lat0 lon0 lat1 lon1)) /\ piece_in_cell glat glon c ab.
+Proof.
+  intros. eapply Forall2_in_l; [apply pieces_in_cells; assumption|assumption].
+Qed.
+
+(* ---------- F20: a point exactly on the lowest grid line ---------- *)
+
+Ltac rdec :=
+  repeat match goal with
+  | |- context [Rltb ?a ?b] =>
+      first [ rewrite (proj2 (Rltb_true a b)) by lra | rewrite (proj2 (Rltb_false a b)) by lra ]
+  end.
+
+Lemma lowest_line_index_as_coded : @cell_index RNum false [0; 1; 2] 0 = (-1)%Z.
+Proof. unfold cell_index, ss_left. cbn [ltb RNum]. rdec. reflexivity. Qed.
+
+Lemma lowest_line_wraps_as_coded : @py_nth RNum [0; 1; 2] (@cell_index RNum false [0; 1; 2] 0) = 2.
+Proof. rewrite lowest_line_index_as_coded. reflexivity. Qed.
+
+Lemma lowest_line_index_fixed : @cell_index RNum true [0; 1; 2] 0 = 0%Z.
+Proof. unfold cell_index, ss_left. cbn [ltb RNum]. rdec. reflexivity. Qed.
+
+(* as coded, a start altitude (or latitude, longitude, time) equal to the lowest grid line is reported in the
+   cell starting at the LAST grid line, which does not contain it *)
+Lemma lowest_line_refuted :
+  exists (g : list R) (x : R),
+    incr g /\ gn g 0 <= x <= gn g (glen g - 1) /\
+    ~ (exists c, (0 <= c)%Z /\ (c + 1 < glen g)%Z /\
+                 @py_nth RNum g (@cell_index RNum false g x) = gn g c /\ gn g c <= x <= gn g (c + 1)).
+Proof.
+  exists [0; 1; 2], 0. split; [|split].
+  - repeat constructor; lra.
+  - unfold gn, glen. simpl. lra.
+  - rewrite lowest_line_wraps_as_coded. intros [c [H0 [H1 [E _]]]].
+    unfold glen in H1. simpl in H1.
+    assert (Hc : c = 0%Z \/ c = 1%Z) by lia. destruct Hc as [-> | ->]; unfold gn in E; simpl in E; lra.
+Qed.
+
+(* repaired (index clamped at 0): the point on the lowest line is reported in the first cell *)
+Lemma lowest_line_fixed :
+  @py_nth RNum [0; 1; 2] (@cell_index RNum true [0; 1; 2] 0) = 0.
+Proof. rewrite lowest_line_index_fixed. reflexivity. Qed.
+
+(* with the clamp, the cell index of any point of the closed grid range is a valid cell containing it *)
+Lemma clamped_cell_spec g x :
+  incr g -> (2 <= glen g)%Z -> gn g 0 <= x <= gn g (glen g - 1) ->
+  in_cell g (@cell_index RNum true g x) x.
+Proof.
+  intros Hg Hl [H0 H1]. destruct (Rle_lt_or_eq_dec _ _ H0) as [Hlt|Heq].
+  - destruct (cell_spec true g x Hg (conj Hlt H1)) as [_ [c0 [c1 cm]]]. unfold in_cell. repeat split; try lia; lra.
+  - (* on the lowest line *)
+    assert (E : ss g x = 0%Z).
+    { pose proof (ss_range g x). destruct (Z.eq_dec (ss g x) 0) as [e|n]; [exact e|].
+      assert (gn g 0 < x) by (apply ss_below; lia). lra. }
+    unfold cell_index. rewrite E. cbn [Z.sub Z.max Z.opp Z.add Z.pos_sub Z.compare]. unfold in_cell.
+    repeat split; try lia; [lra|].
+    rewrite <- Heq. apply incr_nth_le; [exact Hg|lia|lia].
+Qed.
+
+(* ---------- FC05a: where the split segment meets the antimeridian ---------- *)
+
+(* repaired: the inserted point is on the straight map line from p0 to the unwrapped p1 *)
+Lemma crossing_lat_on_line sg (lat0 lon0 lat1 lon1 : R) :
+  let lon_cross := if (sg =? -1)%Z then @pi RNum else - @pi RNum in
+  let lon_end := if (sg =? -1)%Z then lon1 + 2 * @pi RNum else lon1 - 2 * @pi RNum in
+  lon_end <> lon0 ->
+  (@crossing_lat RNum true sg (lat0, lon0) (lat1, lon1) - lat0) * (lon_end - lon0)
+  = (lon_cross - lon0) * (lat1 - lat0).
+Proof.
+  intros lon_cross lon_end Hne. unfold crossing_lat. subst lon_cross lon_end.
+  cbn [add sub mul div opp eqb RNum two one].
+  destruct (sg =? -1)%Z; replace (1 + 1) with 2 in * by lra.
+  - rewrite (proj2 (Reqb_false _ _) Hne). field. lra.
+  - rewrite (proj2 (Reqb_false _ _) Hne). field. lra.
+Qed.
+
+(* as coded: the start latitude is used, which is off the line whenever the latitude changes *)
+Lemma crossing_lat_as_coded_refuted :
+  exists sg lat0 lon0 lat1 lon1,
+    let lon_cross := if (sg =? -1)%Z then @pi RNum else - @pi RNum in
+    let lon_end := if (sg =? -1)%Z then lon1 + 2 * @pi RNum else lon1 - 2 * @pi RNum in
+    lon_end <> lon0 /\
+    (@crossing_lat RNum false sg (lat0, lon0) (lat1, lon1) - lat0) * (lon_end - lon0)
+    <> (lon_cross - lon0) * (lat1 - lat0).
+Proof.
+  exists (-1)%Z, 0, 3, 1, (-3). cbn [Z.eqb Pos.eqb crossing_lat]. unfold pi. cbn [lit RNum]. split; lra.
+Qed.
